@@ -20,6 +20,8 @@ fn error_matches(kind: FailKind, e: &quiver_core::error::Error) -> bool {
 
 pub fn check(rep: &Report) {
     let quick = rep.quick();
+    // shared-await templates (several awaiters of one target, finished / failed / heap-result targets)
+    crate::c04::check_await_templates(rep, "C15", if quick { 60 } else { 1500 }, if quick { 24 } else { 60 });
     let n_scen = if quick { 5000 } else { 80000 };
     let n_sched = if quick { 20 } else { 80 };
     let b = qv::builtins();
